@@ -848,6 +848,11 @@ def model_quantize(model,
       quantize_rnn(layer, quantizer_config)
 
     elif layer["class_name"] == "Bidirectional":
+      # This is to avoid unwanted transformations.
+      if get_config(quantizer_config, layer, "QBidirectional",
+                    "kernel_quantizer") is None:
+        continue
+
       forward_layer_quantizer_config = {
           layer_config["layer"]["config"]["name"]:
               get_config(quantizer_config, layer, "QBidirectional")
